@@ -96,22 +96,21 @@ Example C02_static_hidden_file_nonvacuous :
      Serve {| n_path := bs "/a.txt.gz"; n_dir := false; n_id := 16 |} (Some (bs "gzip"))].
 Proof. vm_compute. reflexivity. Qed.
 
-(* never_hidden, full statement: FALSE of the faithful model.  The precompressed sibling is opened
-   after the IsHidden test and is not tested itself. *)
-Theorem C02_static_never_hidden_refuted :
-  exists fs hide pages req ae n enc,
-  serve_file fs hide pages [SLASH] 0 req ae = Serve n enc /\ is_hidden fs hide n = true.
-Proof. exact static_never_hidden_refuted. Qed.
-Print Assumptions C02_static_never_hidden_refuted.
-
-(* ... the strongest true form: if no hidden file can be reached under a name q ++ ext (ext the
-   extension of a static encoding), then nothing the static file server returns is hidden. *)
-Theorem C02_static_never_hidden_partial :
+(* Nothing the static file server returns is hidden — neither the file itself nor the
+   precompressed sibling served in its place (IsHidden is applied to the sibling too). *)
+Theorem C02_static_never_hidden :
   forall fs hide pages prefix m req ae n enc,
-  no_hidden_sibling fs hide ->
   serve_file fs hide pages prefix m req ae = Serve n enc -> is_hidden fs hide n = false.
-Proof. exact static_never_hidden_partial. Qed.
-Print Assumptions C02_static_never_hidden_partial.
+Proof. exact static_never_hidden. Qed.
+Print Assumptions C02_static_never_hidden.
+
+(* a hidden sibling is passed over: the plain file is served (the fixture hides /hsib.txt.gz) *)
+Example C02_static_never_hidden_nonvacuous :
+  map (fun ae => match serve_file fixture_fs gen_c02_hide gen_default_index_pages [SLASH] 0 (bs "/hsib.txt") (bs ae) with
+                 | Serve n enc => (n_path n, enc) | _ => ([], None) end)
+      ["gzip"; "br, gzip"; ""]%string
+  = [(bs "/hsib.txt", None); (bs "/hsib.txt", None); (bs "/hsib.txt", None)].
+Proof. vm_compute. reflexivity. Qed.
 
 (* "regular files", full statement: FALSE of the faithful model — the sibling lookup does not
    check that name ++ ext is a regular file; a directory of that name is "served". *)
@@ -131,13 +130,13 @@ Theorem C02_hide_casketfile_inside_root :
 Proof. exact hide_casketfile_inside. Qed.
 Print Assumptions C02_hide_casketfile_inside_root.
 
-(* ... hence, for EVERY spelling of EVERY request path, no identity-encoded body is the
-   Casketfile (compared as os.SameFile does: hard links included). *)
+(* ... hence, for EVERY spelling of EVERY request path, no body — identity-encoded or a
+   precompressed sibling — is the Casketfile (compared as os.SameFile does: hard links included). *)
 Theorem C02_casketfile_never_served :
   forall fs hide pages root name cf m req ae h,
   hide_casketfile root (root ++ jail name) = Some h -> In h hide ->
   fs_open fs (jail name) = Some cf ->
-  forall n, serve_file fs hide pages [SLASH] m req ae = Serve n None -> n_id n <> n_id cf.
+  forall n enc, serve_file fs hide pages [SLASH] m req ae = Serve n enc -> n_id n <> n_id cf.
 Proof. exact casketfile_never_served. Qed.
 Print Assumptions C02_casketfile_never_served.
 
@@ -225,8 +224,7 @@ Theorem C02_site_sound :
   | Serve n enc =>
       is_get_head (q_meth r) = true /\ In n (s_fs s) /\
       served_from (s_pages s) (q_path r) (q_ae r) enc (n_path n) /\
-      (enc = None -> n_dir n = false /\ is_hidden (s_fs s) (s_hide s) n = false) /\
-      (no_hidden_sibling (s_fs s) (s_hide s) -> is_hidden (s_fs s) (s_hide s) n = false)
+      (enc = None -> n_dir n = false) /\ is_hidden (s_fs s) (s_hide s) n = false
   | Listing kids =>
       forall k, In k kids -> In k (s_fs s) /\ is_child (jail (q_path r)) (n_path k) = true /\
                              is_hidden (s_fs s) (s_hide s) k = false
